@@ -23,6 +23,8 @@ impl TlsBuf {
     #[inline]
     pub fn with_capacity(n: usize) -> Self {
         if n >= Self::MAX_TLS_SIZE {
+            #[cfg(sonic_rs_verif)]
+            crate::verif::event(crate::verif::EV_TLS_HEAP_FALLBACK, n);
             let vec = Box::into_raw(Box::new(Vec::with_capacity(n)));
             Self {
                 buf: unsafe { NonNull::new_unchecked(vec) },
@@ -31,6 +33,10 @@ impl TlsBuf {
         } else {
             let vec = NODE_BUF.with(|buf| {
                 let mut nodes = buf.borrow_mut();
+                #[cfg(sonic_rs_verif)]
+                if nodes.capacity() != 0 {
+                    crate::verif::event(crate::verif::EV_TLS_REUSE, nodes.capacity());
+                }
                 nodes.clear();
                 nodes.reserve(n);
                 (&mut *nodes) as *mut Vec<ManuallyDrop<Value>>
